@@ -187,9 +187,9 @@ def analyse(text, label, C, runinfo):
                 break
         if qq["stuck1"]:
             fail("stuck", "after all merge/suspend/resume calls returned the source stayed with ds_pending_data=%d, dq_state=%#x "
-                 "for 30 s: merged data was never delivered" % (qq["pending"], qq["state"]))
+                 "for 12 s: merged data was never delivered" % (qq["pending"], qq["state"]))
         elif qq["stuck2"]:
-            fail("stuck-sentinel", "a final non-zero merge on the idle source was not delivered within 30 s (ds_pending_data=%d, "
+            fail("stuck-sentinel", "a final non-zero merge on the idle source was not delivered within 12 s (ds_pending_data=%d, "
                  "dq_state=%#x)" % (qq["pending2"], qq["state2"]))
         if not (qq["stuck1"] or qq["stuck2"]):
             if info["kind"] == 0 and sum(deliv) % M64 != sum(merged) % M64:
@@ -299,7 +299,7 @@ def correspond(ctx):
                     "merge, wait until delivered): ADD sum of delivered = sum of merged mod 2^64, OR unions equal, REPLACE "
                     "delivered values all merged and the sentinel is the last delivered; no handler call with data 0; handler "
                     "never re-entered (atomic flag + stamp intervals); not stuck (white-box read of ds_pending_data / dq_state "
-                    "after 30 s).  distinct = distinct shapes of thread traces",
+                    "after 12 s).  distinct = distinct shapes of thread traces",
             "samples": samples, "distribution": total, "traces_validated_against_impl": len(alltr),
             "mismatches": mism[:20], "failures": fails[:20]}
 
